@@ -19,6 +19,27 @@ import threading
 
 tls = threading.local()
 RUN = None
+WAIT_LIMIT = 4000      # a scheduler that calls the wait primitives this often in one run is spinning
+
+
+class Kill(BaseException):
+    """Raised inside the threads of a run that was declared hung, at their next call of a patched primitive:
+    a scheduler that spins THROUGH the wait primitives can be stopped, so that the stream of scenarios may go on
+    (one that spins without ever calling them cannot; the caller then stops exploring)."""
+
+
+def _zombie_check():
+    Rt = getattr(tls, "run", None)
+    if Rt is not None and Rt.dead:
+        raise Kill()
+
+
+def _count_wait(R):
+    R.nwaits += 1
+    if R.nwaits > WAIT_LIMIT:
+        R.dead = True
+        R.spin = True
+        raise Kill()
 
 
 class Ticket:
@@ -81,6 +102,10 @@ class Run:
         self.lock = threading.Lock()
         self.main = threading.get_ident()
         self.abort = None  # set by on-line monitors
+        self.dead = False
+        self.spin = False
+        self.nwaits = 0
+        self.zombie_alive = False
 
     def ev(self, *a):
         with self.lock:
@@ -98,6 +123,7 @@ _real_await = asyncio.wait
 
 
 def _submit(self, fn, *a, **k):
+    _zombie_check()
     R = RUN
     if R is None:
         return _real_submit(self, fn, *a, **k)
@@ -128,6 +154,7 @@ def _submit(self, fn, *a, **k):
 
 
 def _ensure_future(coro, *, loop=None):
+    _zombie_check()
     R = RUN
     if R is None:
         return _real_ef(coro, loop=loop)
@@ -146,9 +173,12 @@ def _choose(R, fs, mode):
 
 
 def _wait(fs, timeout=None, return_when=cf.ALL_COMPLETED):
+    _zombie_check()
     R = RUN
     if R is None:
         return _real_wait(fs, timeout, return_when)
+    if getattr(tls, "run", None) is R:
+        _count_wait(R)
     fs = set(fs)
     if timeout is not None:
         # tawazi passes no timeout; if a wait can time out, the adversarial environment lets it expire
@@ -168,9 +198,12 @@ def _wait(fs, timeout=None, return_when=cf.ALL_COMPLETED):
 
 
 async def _await(fs, *, timeout=None, return_when=asyncio.ALL_COMPLETED):
+    _zombie_check()
     R = RUN
     if R is None:
         return await _real_await(fs, timeout=timeout, return_when=return_when)
+    if getattr(tls, "run", None) is R:
+        _count_wait(R)
     fs = set(fs)
     if timeout is not None:
         R.ev("wait", "async", return_when, tuple(sorted(t.id for t in R.tickets if t.handle in fs)), (), "timeout")
@@ -240,9 +273,14 @@ def run_controlled(fn, script, timeout=40):
         th.start()
         th.join(timeout)
         hung = th.is_alive()
+        if hung:
+            R.dead = True       # its threads are killed at their next call of a patched primitive
         R.open_all()
         if hung:
             th.join(5)
+            R.zombie_alive = th.is_alive()
+            return R, ("hang",)
+        if R.spin or isinstance(res["o"][1], Kill):
             return R, ("hang",)
         return R, res["o"]
     finally:
